@@ -158,6 +158,8 @@ def run(db, rep, tier):
     rep.rule("R1-inverse", "getter(setter(o,v)) == v bit for bit for every representable v and every prior state", 200)
     rep.rule("R2-no-truncation", "no parameter bit is dropped unless the parameter type excludes it", 200)
     rep.rule("R3-footprint", "a setter changes only its own field's members and no getter of other bits", 200)
+    rep.rule("R5-endian-arms", "the little- and big-endian declarations of a packed header put every bit-field of the same name and width "
+                               "on the same wire bits", 60)
     rep.rule("R4-serialiser-stores", "serialising assigns only the tabled derived fields (lengths, checksums, next-protocol tags ...): "
                                      "every other field keeps the value that was set", 25)
     small_uint(db, rep)
@@ -317,6 +319,7 @@ def run(db, rep, tier):
             rep.ok("R3-footprint", key, site, "writes %d bit(s) inside {%s}; %d other getters unaffected" %
                    (len(changed), ",".join(sorted(ch_members)) or "-", n_cmp))
     serialiser_stores(db, rep)
+    endian_arms(db, rep)
     rep.extra["pairs"] = dict(stats)
     rep.extra["pairs_total"] = len(pairs)
     rep.explanation = ("E-BITS composes each scalar setter with its getter in a bit-provenance domain (masks, shifts, byte swaps, casts, "
@@ -481,3 +484,84 @@ def serialiser_stores(db, rep):
                               "the API - or parsed from the wire - is lost by serialize()" % (w["rec"].split("::")[-1], fld, f["qual"].split("::")[-1]))
     if n_ser < 50:
         rep.analysis_broken("only %d serialisers enumerated" % n_ser)
+
+
+BE_TU = """#include <endian.h>
+#undef __BYTE_ORDER
+#define __BYTE_ORDER __BIG_ENDIAN
+#include <tins/tins.h>
+#include <tins/dot11.h>
+#include <tins/rtp.h>
+#include <tins/mpls.h>
+#include <tins/vxlan.h>
+"""
+
+
+def endian_arms(db, rep):
+    """The header structs declare their bit-fields twice (#if TINS_IS_LITTLE_ENDIAN / #else).  The big-endian arm is parsed
+    in a translation unit of its own (byte order macro overridden, declarations only) and its MSB-first allocation is
+    simulated from the declaration order; the little-endian arm's positions come from clang's record layout.  Both are
+    descriptions of one wire format: a field of the same name and width must occupy the same bits of the same byte."""
+    try:
+        be = facts.extract_standalone(db, "bigendian", BE_TU)
+    except facts.AnalysisBroken as e:
+        rep.analysis_broken("big-endian declarations cannot be parsed: %s" % str(e)[-300:])
+        return
+
+    def le_positions(fl):
+        return [((fl["off"] + k) // 8, (fl["off"] + k) % 8) for k in range(fl["bitw"])]
+
+    def be_layout(r):
+        out = {}
+        fields = r["fields"]
+        i = 0
+        while i < len(fields):
+            fl = fields[i]
+            if not fl.get("bitw"):
+                i += 1
+                continue
+            U = fl["bits"]
+            g, used, ustart = [], 0, None
+            j = i
+            while j < len(fields) and fields[j].get("bitw") and fields[j]["bits"] == U and used + fields[j]["bitw"] <= U:
+                if ustart is None:
+                    ustart = fields[j]["off"]
+                g.append(fields[j])
+                used += fields[j]["bitw"]
+                j += 1
+            p = 0
+            for x in g:
+                w = x["bitw"]
+                out[x["name"]] = (w, [(ustart // 8 + (p + (w - 1 - k)) // 8, 7 - (p + (w - 1 - k)) % 8) for k in range(w)])
+                p += w
+            i = max(j, i + 1)
+        return out
+    n = 0
+    for rn, r in sorted(db.records.items()):
+        if not rn.startswith("Tins::") or rn not in be.records:
+            continue
+        rb = be.records[rn]
+        if not any(f.get("bitw") for f in r["fields"]):
+            continue
+        if [(f["name"], f["off"], f.get("bitw")) for f in r["fields"]] == [(f["name"], f["off"], f.get("bitw")) for f in rb["fields"]]:
+            continue        # declared once, no endian arms
+        bl = be_layout(rb)
+        for f in r["fields"]:
+            if not f.get("bitw") or not f["name"]:
+                continue
+            got = bl.get(f["name"])
+            if got is None or got[0] != f["bitw"]:
+                continue    # split differently in the two arms (idL/idH vs id): handled by arm-specific accessor code
+            n += 1
+            key = "%s.%s" % (rn.replace("Tins::", ""), f["name"])
+            lp = le_positions(f)
+            site = "%s:%s" % (r["file"], f.get("l", r["line"]))
+            if lp == got[1]:
+                rep.ok("R5-endian-arms", key, site, "byte %d, bits %s in both arms" % (lp[0][0], sorted(set(b for _, b in lp))))
+            else:
+                rep.violation("R5-endian-arms", key, site,
+                              "the little-endian declaration puts `%s` at byte %d bit(s) %s, the big-endian declaration at byte %d bit(s) %s: the two arms "
+                              "describe different wire formats, one of them is not the protocol's"
+                              % (f["name"], lp[0][0], sorted(set(b for _, b in lp)), got[1][0][0], sorted(set(b for _, b in got[1]))))
+    if n < 60:
+        rep.analysis_broken("only %d bit-fields with two endian declarations compared" % n)
